@@ -218,7 +218,7 @@ def announced_in_force(camp, rng, batch, rounds):
                     batch.add(cfg, chunks, [], r, True, "announced")
 
 
-def session_sequences(camp, rng, rounds):
+def session_sequences(camp, rng, rounds, pid="C13"):
     """several sessions in one process (vncdotool.api, reconnects), to servers whose formats differ only in the channel order:
     the SAME wire bytes - as raw pixels and as RRE background / sub-rectangle colours painted into the existing screen -
     mean each session's own colours"""
@@ -250,7 +250,7 @@ def session_sequences(camp, rng, rounds):
             camp.nontrivial.add(("sequence", tuple(f.t for f in order[:k + 1]), tuple(vals), bg, fg))
             got = r["screen"][1] if r["screen"] else None
             if r["final"][0] != "idle" or got != want:
-                camp.oracle_failures.append({"kind": "oracle", "property": "C13", "case": case_payload(cfg, [hs + msg]),
+                camp.oracle_failures.append({"kind": "oracle", "property": pid, "case": case_payload(cfg, [hs + msg]),
                                              "what": f"session #{k + 1} of one process (formats so far {[f.t for f in order[:k + 1]]}): a raw + RRE update in this "
                                                      f"session's format {fmt.t}: the client ends {r['final'][:2]}, screen "
                                                      f"{None if got is None else got.hex()}, the colours sent are {want.hex()}"})
